@@ -133,12 +133,25 @@ class gather(core.Stream):
     buffer
     scatter
     """
+    _turn = None  # done once the previous element has been handed on
+
     @gen.coroutine
     def update(self, x, who=None, metadata=None):
         client = default_client()
 
         self._retain_refs(metadata)
-        result = yield client.gather(x, asynchronous=True)
+        # Several updates can be under way at once (two branches of one
+        # node joined by a union deliver within one emission): the results
+        # are fetched concurrently but handed on in the order of arrival,
+        # whichever task finishes first.
+        before, mine = self._turn, gen.Future()
+        self._turn = mine
+        try:
+            result = yield client.gather(x, asynchronous=True)
+            if before is not None and not before.done():
+                yield before
+        finally:
+            mine.set_result(None)
         result2 = yield self._emit(result, metadata=metadata)
         self._release_refs(metadata)
 
